@@ -351,8 +351,49 @@ fn unpredict(decoded: Vec<u8>, params: &LZWFlateParams) -> Result<Vec<u8>> {
             out_off += stride;
         }
         Ok(out)
+    } else if predictor == 2 {
+        let (_, stride) = predictor_geometry(params)?;
+        let mut out = decoded;
+        tiff_unpredict(&mut out, params.n_components as usize, params.bits_per_component as usize, params.columns as usize, stride);
+        Ok(out)
     } else {
         Ok(decoded)
+    }
+}
+
+/// Undo TIFF predictor 2 (horizontal differencing) in place: every sample is the stored difference plus
+/// the sample of the same colour component one pixel to the left, modulo 2^bpc. Rows are independent and
+/// `stride` bytes long; samples of 1, 2 or 4 bits are packed high bits first, 16-bit samples are big endian.
+fn tiff_unpredict(data: &mut [u8], colors: usize, bpc: usize, columns: usize, stride: usize) {
+    fn get(row: &[u8], bpc: usize, k: usize) -> u16 {
+        match bpc {
+            16 => u16::from_be_bytes([row[2 * k], row[2 * k + 1]]),
+            8 => row[k] as u16,
+            _ => {
+                let bit = k * bpc;
+                (row[bit / 8] >> (8 - bpc - bit % 8)) as u16 & ((1 << bpc) - 1)
+            }
+        }
+    }
+    fn set(row: &mut [u8], bpc: usize, k: usize, v: u16) {
+        match bpc {
+            16 => row[2 * k .. 2 * k + 2].copy_from_slice(&v.to_be_bytes()),
+            8 => row[k] = v as u8,
+            _ => {
+                let bit = k * bpc;
+                let shift = 8 - bpc - bit % 8;
+                let mask = ((1u8 << bpc) - 1) << shift;
+                row[bit / 8] = (row[bit / 8] & !mask) | ((v as u8) << shift & mask);
+            }
+        }
+    }
+    for row in data.chunks_mut(stride) {
+        // a last row that is cut short keeps the samples it has
+        let samples = colors.saturating_mul(columns).min(row.len() * 8 / bpc);
+        for k in colors .. samples {
+            let v = get(row, bpc, k).wrapping_add(get(row, bpc, k - colors));
+            set(row, bpc, k, v);
+        }
     }
 }
 fn flate_encode(data: &[u8]) -> Vec<u8> {
